@@ -15,7 +15,7 @@ CHECKS = {
    technique=TECH+"porcupine linearizability check of recorded histories against a sequential reference model",
    ref="DESIGN.md §7 C01"),
  "C02": dict(level="exploration",
-   text="Seeded search over write histories, history-ring configurations, watcher start points and consumer speeds under controlled schedules; every watcher's stream is compared event by event with the totally ordered commit log taken at the store's backing-store seam (exact snapshot + exact contiguous continuation for some establishment point inside the Watch call), plus black-box chain/replay/exactly-once oracles without the tap, and a lag-accounted oracle for spurious or missing Errored events.",
+   text="Seeded search over write histories, history-ring configurations, watcher start points and consumer speeds under controlled schedules; every watcher's stream is compared event by event with the totally ordered commit log taken at the store's backing-store seam (exact snapshot + exact contiguous continuation for some establishment point inside the Watch call), plus black-box chain/replay/exactly-once oracles without the tap, and a lag-accounted oracle for spurious or missing Errored events; in a quarter of the tapped cases some backing-store writes are rejected and must stay invisible to the state and to every watcher.",
    note="Trusted: simrt + instrumenter; the commit tap (backing-store seam is called under the collection lock in commit order - cross-checked by every kind watcher agreeing with it). Sampling only.",
    technique=TECH+"exact comparison of each watch stream with the commit-tap log (reference change-log model) and lag-accounted overrun oracle",
    ref="DESIGN.md §7 C02"),
